@@ -25,7 +25,11 @@ in the directed `stale` schedules the holder that
 prolongs every < U/2 still answers isAcquired after catching up and nobody else was granted; (8) at no instant have two clients been
 told (tryAcquire answered True, stamp less than U ago, no release of theirs committed since) that they hold the
 same lock -- directed `lapse`: the holder is silent for longer than U, nobody's prolongation purges the entry, it
-re-acquires, a competitor tries; (7) a client told that its
+re-acquires, a competitor tries; (9) a released lock is not kept: a client
+whose last call for a lock is release() (nothing of it in flight then, no release outstanding) does not hold it --
+directed: release on a replica that lags so far that the held lock looks expired locally; (7) -- judged on the
+tryAcquire calls since the client's last release call; directed: release() followed at once by a tryAcquire that is
+told LEADER_CHANGED -- a client told that its
 acquisition failed does not keep the lock -- also when the outcome reported was open (`try_open`: callback(None,
 LEADER_CHANGED) while the command is committed later): no client considers a lock held, with no release of its
 own outstanding, when every one of its tryAcquire calls was answered with a failure (D73); (6) replicas
@@ -51,6 +55,8 @@ SIG_MUTEX_STALE = "batteries.ReplLockManager:stale-stamp-mutex"
 SIG_MUTEX_SNAPSHOT = "batteries.ReplLockManager:mutex-broken-after-snapshot"
 SIG_FAILED_KEPT = "batteries.ReplLockManager.tryAcquire:failed-acquire-kept"
 SIG_TWO_TOLD = "batteries.ReplLockManager.tryAcquire:two-clients-told-they-hold"
+SIG_RELEASED_KEPT = "batteries.ReplLockManager.release:released-lock-kept"
+LOSS_DISCIPLINE = False      # harness-injected loss of queued commands ("drop" events); see notes/locks.md
 
 
 def delay(rng, U, mode):
@@ -112,13 +118,14 @@ class World(object):
             cl = []
             for i in range(self.ncl):
                 mgr, impl, so = lc.make_manager(bat, U, i + 1)
-                cl.append({"mgr": mgr, "impl": impl, "so": so, "applied": 0, "part": False, "attempts": [], "due": [],
+                cl.append({"mgr": mgr, "impl": impl, "so": so, "applied": 0, "part": False, "attempts": [], "due": [], "calls": [], "lost": {},
                            "rel_sub": {}, "rel_app": {}})
             self.cl = cl
             keep = self.keep = lc.KeepMonitor(bat, U)           # the log head, with clause (5)
             ref = keep.impl
             first = None
             for idx, ev in enumerate(evs):
+                self.idx = idx
                 k = ev[0]
                 if k == "adv":
                     clock.now += ev[1]
@@ -128,6 +135,7 @@ class World(object):
                     att = clock.now
                     rec = {"l": ev[2], "att": att, "ans": None, "n_sub": len(c["so"].submitted)}
                     c["attempts"].append(rec)
+                    c["calls"].append(("try", ev[2], rec))
                     c["mgr"].tryAcquire(lc.lock_name(ev[2]), callback=(lambda r, e, rec=rec: self.answered(rec, r, e)))
                     self.sync_due(c, ev[3] if len(ev) > 3 else 0)
                     self.hit("try")
@@ -138,6 +146,7 @@ class World(object):
                     self.sync_due(c, 0)
                     rec = {"l": ev[2], "att": clock.now, "ans": None, "n_sub": len(c["so"].submitted)}
                     c["attempts"].append(rec)
+                    c["calls"].append(("try", ev[2], rec))
                     c["mgr"].tryAcquire(lc.lock_name(ev[2]), callback=(lambda r, e, rec=rec: self.answered(rec, r, e)))
                     self.sync_due(c, ev[3] if len(ev) > 3 else 0)
                     cmd, cb = c["so"].queue[-1]
@@ -148,6 +157,10 @@ class World(object):
                     self.hit("try.outcome-open")
                 elif k == "rel":
                     c = cl[ev[1]]
+                    c["calls"].append(("rel", ev[2], idx))
+                    if any(e[0] == ev[2] and e[1] == ev[1] + 1 and clock.now < e[2] + U for e in lc.table_of(ref)) and \
+                            not c["impl"].isAcquired(lc.lock_name(ev[2]), lc.client_name(ev[1] + 1), clock.now):
+                        self.hit("release.while-local-replica-shows-lock-expired")
                     self.sync_due(c, 0)
                     c["mgr"].release(lc.lock_name(ev[2]))
                     self.sync_due(c, ev[3] if len(ev) > 3 else 0)
@@ -159,6 +172,17 @@ class World(object):
                     lc.tick_once(bat, c["mgr"], clock)
                     self.sync_due(c, ev[2] if len(ev) > 2 else 0)
                     self.hit("tick.prolong" if len(c["so"].submitted) > n0 else "tick.skip")
+                elif k == "drop":
+                    # the oldest queued command of the client is lost on its way (connection drops after `send`, or it is
+                    # dropped with MISSING_LEADER when commandsWaitLeader is off): nobody is told
+                    c = cl[ev[1]]
+                    self.sync_due(c, 0)
+                    if c["so"].queue:
+                        cmd, cb = c["so"].queue.pop(0)
+                        c["due"].pop(0)
+                        key = (cmd[0], cmd[1]) if cmd[0] != "pro" else ("pro", 0)
+                        c["lost"][key] = c["lost"].get(key, 0) + 1
+                        self.hit("drop." + cmd[0])
                 elif k == "flush":
                     c = cl[ev[1]]
                     self.sync_due(c, 0)
@@ -278,6 +302,7 @@ class World(object):
 
     def answered(self, rec, r, e):
         rec["ans"] = (self.clock.now, r)
+        rec["ans_idx"] = getattr(self, "idx", 0)
         took = self.clock.now - rec["att"]
         self.hit("answer.true" if r is True else "answer.false")
         if r is True and 2 * took > self.U:
@@ -328,7 +353,7 @@ class World(object):
             holders = []
             for i, c in enumerate(self.cl):
                 if c["mgr"].isAcquired(lc.lock_name(l)):
-                    nsub = sum(1 for x in c["so"].submitted if x[0] == "rel" and x[1] == l)
+                    nsub = sum(1 for x in c["so"].submitted if x[0] == "rel" and x[1] == l) - c["lost"].get(("rel", l), 0)
                     if nsub == c["rel_app"].get(l, 0):          # no release of its own outstanding
                         holders.append(i + 1)
             # (8) two clients told they hold the lock: each has a tryAcquire answered True whose stamp is less than U
@@ -352,25 +377,52 @@ class World(object):
             elif entitled:
                 self.hit("told-true.1")
             for h in holders:
-                att = [a for a in self.cl[h - 1]["attempts"] if a["l"] == l]
+                c = self.cl[h - 1]
+                calls = [x for x in c["calls"] if x[1] == l]
+                if not calls:
+                    continue
+                last_rel = max([i for i, x in enumerate(calls) if x[0] == "rel"] + [-1])
+                att = [x[2] for x in calls[last_rel + 1:] if x[0] == "try"]       # tryAcquire calls since the last release call
+                before = [x[2] for x in calls[:last_rel + 1] if x[0] == "try"]
+                cmds = [e[0] for e in self.log]
+
+                def committed_at(a):
+                    return max([t for e, t in zip(self.log, self.log_times) if e[0] == ("acq", l, h, a["att"])] + [a["att"]])
                 if att and all(a["ans"] is not None and a["ans"][1] is not True for a in att):
-                    # the literal clause: an acquisition that took longer than U/2 (committed > U/2 after the attempt)
-                    late = [a for a in att if a["ans"][1] is None and any(e[0] == ("acq", l, h, a["att"]) and 2 * (t_app - a["att"]) > self.U
-                                                  for e, t_app in zip(self.log, self.log_times))]
+                    # (7) told failed => not kept.  The literal clause: an acquisition that took longer than U/2 -- the
+                    # answer or the commit came more than U/2 after the attempt -- and was reported as failed (open outcome)
+                    late = [a for a in att if a["ans"][1] is None and ("acq", l, h, a["att"]) in cmds
+                            and 2 * (max(a["ans"][0], committed_at(a)) - a["att"]) > self.U]
                     if not late:
-                        self.hit("held.by-client-told-failed.commit-within-U/2")
+                        self.hit("held.by-client-told-failed.within-U/2")
                         continue
                     self.hit("held.by-client-told-failed")
-                    # with the compensating release of fixes/D73 in place the only way left is the release being
-                    # committed BEFORE the acquire it compensates (the acquire overtaken in the pipeline)
-                    cmds = [e[0] for e in self.log]
-                    overtaken = any(lc.release_overtaken(self.cl[h - 1]["so"].submitted, cmds, l, h, a["att"]) for a in late)
-                    self.viols.append({"signature": SIG_FAILED_KEPT + (":compensating-release-overtaken" if overtaken else ""),
-                                       "what": "at time %d client %d considers L%d held (no release of its own outstanding) although every one "
-                                               "of its tryAcquire calls was answered with a failure (attempt time, (answer time, answer)): %s, and "
-                                               "an acquire was committed more than U/2 after its attempt; table %s; log %s"
-                                               % (now, h, l, [(a["att"], a["ans"]) for a in att], lc.table_of(self.cl[h - 1]["impl"]),
-                                                  [lc.cmd_str(e[0]) for e in self.log][-8:])})
+                    # with the compensating release of D73 in place the ways left are the release being committed BEFORE
+                    # the acquire it compensates (D73b) or being lost on its way (harness-injected loss)
+                    overtaken = any(lc.release_overtaken(c["so"].submitted, cmds, l, h, a["att"]) for a in late)
+                    lost = c["lost"].get(("rel", l), 0) > 0
+                    suffix = ":compensating-release-overtaken" if overtaken else ":compensating-release-lost" if lost else ""
+                    self.viols.append({"signature": SIG_FAILED_KEPT + suffix,
+                                       "what": "at time %d client %d considers L%d held (no release of its own outstanding) although every "
+                                               "tryAcquire it made since its last release call was answered with a failure (attempt time, "
+                                               "(answer time, answer)): %s, and for one reported as failed with an open outcome the answer or the "
+                                               "commit came more than U/2 after the attempt; table %s; log %s"
+                                               % (now, h, l, [(a["att"], a["ans"]) for a in att], lc.table_of(c["impl"]),
+                                                  [lc.cmd_str(x) for x in cmds][-8:])})
+                    return
+                if not att and last_rel >= 0 and all(a["ans"] is not None and a["ans_idx"] < calls[last_rel][2] for a in before):
+                    # (9) a released lock is not kept: the client's last call for this lock is release(), nothing of it was
+                    # in flight then, no release of its own is outstanding -- and it holds the lock
+                    overtaken = any(a["ans"][1] is None and lc.release_overtaken(c["so"].submitted, cmds, l, h, a["att"]) for a in before)
+                    lost = c["lost"].get(("rel", l), 0) > 0
+                    self.hit("held.after-own-release")
+                    self.viols.append({"signature": (SIG_FAILED_KEPT + ":compensating-release-overtaken") if overtaken
+                                       else SIG_RELEASED_KEPT + (":release-lost" if lost else ""),
+                                       "what": "at time %d client %d considers L%d held although its last call for that lock was release() "
+                                               "(event %d; every earlier tryAcquire had been answered, no release of its own is outstanding); "
+                                               "table %s; client submitted %s; log %s"
+                                               % (now, h, l, calls[last_rel][2], lc.table_of(c["impl"]),
+                                                  [lc.cmd_str(x) for x in c["so"].submitted][-6:], [lc.cmd_str(x) for x in cmds][-8:])})
                     return
             if holders:
                 self.hit("held.%d" % min(len(holders), 2))
@@ -497,6 +549,57 @@ def stall_case(rng, mode):
     return {"U": U, "ncl": 3, "nlk": 2, "mode": mode, "events": ev}
 
 
+def loss_case(rng, mode):
+    """Directed, only with LOSS_DISCIPLINE: Y's tryAcquire is told LEADER_CHANGED (> U/2 after the attempt); its acquire is
+    committed; the compensating release is LOST on its way (dropped with MISSING_LEADER when commandsWaitLeader is off, or
+    sent on a connection that is already dead: `transport.send` returns False and nobody looks)."""
+    U = rng.choice((4, 8, 10, 12))
+    Y, Z, l = 0, 1, 1
+    ev = [("try_open", Y, l, 0, U // 2 + 1), ("flush", Y, 0), ("drop", Y), ("deliver", Y, 9), ("deliver", Z, 9)]
+    for _ in range(rng.randrange(2, 5)):
+        ev += [("adv", max(1, U // 4)), ("tick", Y), ("flush", Y, 0), ("deliver", Y, 9), ("deliver", Z, 9)]
+        if rng.random() < 0.5:
+            ev += [("try", Z, l), ("flush", Z, 0), ("deliver", Z, 9), ("deliver", Y, 9)]
+    return {"U": U, "ncl": 3, "nlk": 2, "mode": mode, "events": ev}
+
+
+def stale_belief_case(rng, mode):
+    """Directed: Y holds L1; it calls release(L1) and at once tryAcquire(L1) -- its replica has not applied the
+    release yet, so locally the lock still looks held --; both are committed in that order; the answer to the
+    tryAcquire is LEADER_CHANGED, more than U/2 after the attempt.  Y was told it failed: it must not keep the lock."""
+    U = rng.choice((4, 8, 10, 12))
+    Y, Z, l = 0, 1, 1
+    ev = [("try", Y, l), ("flush", Y, 0), ("deliver", Y, 9), ("deliver", Z, 9)]
+    for _ in range(rng.randrange(0, 2)):
+        ev += [("adv", max(1, U // 4)), ("tick", Y), ("flush", Y, 0), ("deliver", Y, 9)]
+    ev += [("adv", 1), ("rel", Y, l), ("try_open", Y, l, 0, U // 2 + 1)]
+    ev += [("flush", Y, 0)] * 3 + [("deliver", Y, 9), ("deliver", Z, 9)]
+    for _ in range(rng.randrange(2, 5)):
+        ev += [("adv", max(1, U // 4)), ("tick", Y), ("flush", Y, 0), ("deliver", Y, 9), ("deliver", Z, 9)]
+        if rng.random() < 0.5:
+            ev += [("try", Z, l), ("flush", Z, 0), ("deliver", Z, 9), ("deliver", Y, 9)]
+    return {"U": U, "ncl": 3, "nlk": 2, "mode": mode, "events": ev}
+
+
+def lagging_release_case(rng, mode):
+    """Directed: Y holds L1 and prolongs every < U/2; its prolongations are committed but its own replica lags for
+    more than U, so locally the lock looks expired; Y calls release(L1); the replica catches up; Y lives on.  After
+    its release Y must not hold the lock and a competitor must get it."""
+    U = rng.choice((4, 8, 10, 12))
+    Y, Z, l = 0, 1, 1
+    step = max(1, U // 2 - 1)
+    ev = [("try", Y, l), ("flush", Y, 0), ("deliver", Y, 9), ("deliver", Z, 9)]
+    elapsed = 0
+    while elapsed <= U + 1:
+        ev += [("adv", step), ("tick", Y), ("flush", Y, 0), ("deliver", Z, 9)]      # committed, not applied on Y's replica
+        elapsed += step
+    ev += [("rel", Y, l), ("flush", Y, 0), ("deliver", Y, 9), ("deliver", Z, 9)]
+    for _ in range(rng.randrange(2, 4)):
+        ev += [("adv", step), ("tick", Y), ("flush", Y, 0), ("deliver", Y, 9), ("deliver", Z, 9)]
+    ev += [("try", Z, l), ("flush", Z, 0), ("deliver", Z, 9), ("deliver", Y, 9), ("adv", 0)]
+    return {"U": U, "ncl": 3, "nlk": 2, "mode": mode, "events": ev}
+
+
 def lapse_case(rng, mode):
     """Directed: Y acquires and then shows no stamp for longer than U (nobody's prolongation goes through the log
     either, so the stale entry stays in the table); Y re-acquires (told True again); a competitor tries right after."""
@@ -581,6 +684,15 @@ def explore(ctx, bat, salt, ncases, max_viol=4):
             elif i % 16 == 11:
                 case = lapse_case(rng, mode)
                 cov["directed.lapse-and-reacquire"] = cov.get("directed.lapse-and-reacquire", 0) + 1
+            elif LOSS_DISCIPLINE and i % 32 == 23:
+                case = loss_case(rng, mode)
+                cov["directed.compensating-release-lost"] = cov.get("directed.compensating-release-lost", 0) + 1
+            elif i % 16 == 7:
+                case = stale_belief_case(rng, mode)
+                cov["directed.release-then-retry-told-failed"] = cov.get("directed.release-then-retry-told-failed", 0) + 1
+            elif i % 16 == 15:
+                case = lagging_release_case(rng, mode)
+                cov["directed.release-on-lagging-replica"] = cov.get("directed.release-on-lagging-replica", 0) + 1
             elif i % 4 == 0:
                 case = stale_case(rng) if mode == "stale" else directed_case(rng, mode)
                 cov["directed." + mode] = cov.get("directed." + mode, 0) + 1
@@ -620,7 +732,8 @@ FLOORS = ["try", "release", "tick.prolong", "tick.skip", "deliver", "partition",
           "directed.snapshot", "install.while-another-clients-lock-is-held", "restart.while-another-clients-lock-is-held",
           "directed.stall", "expect.competitor-granted-after-expiry", "expect.stalled-holder-does-not-hold",
           "pro.expires-lock.of-the-prolonging-holder", "acq.of-free-or-expired-lock",
-          "directed.outcome-open", "try.outcome-open", "directed.lapse-and-reacquire", "told-true.1",
+          "directed.outcome-open", "try.outcome-open", "directed.lapse-and-reacquire", "told-true.1", "directed.release-then-retry-told-failed",
+          "directed.release-on-lagging-replica", "release.while-local-replica-shows-lock-expired",
           "acq.reacquire-of-own-expired-lock"]
 
 
